@@ -177,6 +177,10 @@ const EDITS: &[&str] = &[
     "insert-zero-replacement-tx",
     // the transaction list is edited AND the header's merkle root field is rewritten to match
     // (the header signature cannot be renewed by a third party)
+    // two transfers that are SIBLINGS in the merkle tree (positions 2k, 2k+1) exchanged, and two
+    // aligned pairs exchanged: an inner node must commit to the order of its children
+    "swap-sibling-pair",
+    "swap-aligned-pairs",
     "swap-two-txs-rewrite-root",
     "remove-tx-rewrite-root",
     // same header, same pre-hash, same hash; only the signature is by another key
@@ -263,6 +267,19 @@ async fn main() {
                         t.sign(&w.node.sk);
                         t.generate(&w.node.pk, 0, 0);
                         b.transactions.insert(n0 + 1, t);
+                    }
+                    "swap-sibling-pair" => {
+                        let ty: Vec<u8> = b.transactions.iter().map(|t| t.transaction_type as u8).collect();
+                        if let Some(i) = (0..ty.len().saturating_sub(1)).step_by(2).find(|i| ty[*i] == 0 && ty[*i + 1] == 0) {
+                            b.transactions.swap(i, i + 1);
+                        }
+                    }
+                    "swap-aligned-pairs" => {
+                        let ty: Vec<u8> = b.transactions.iter().map(|t| t.transaction_type as u8).collect();
+                        if ty.len() >= 4 && ty[..4].iter().all(|t| *t == 0) {
+                            b.transactions.swap(0, 2);
+                            b.transactions.swap(1, 3);
+                        }
                     }
                     "swap-two-txs-rewrite-root" => {
                         b.transactions.swap(n0, n0 + 1);
